@@ -127,7 +127,7 @@ def _explore(items):
 def run(tier, seed, workers):
     total = core.Stats()
     items = []
-    configs = [(None, 2, 1), (3, 2, 1), (None, 0, 2)] if tier == 'quick' else [(None, 0, 3), (3, 0, 2), (None, 2, 2), (3, 2, 2)]
+    configs = [(None, 2, 1), (3, 2, 1), (0, 0, 1), (None, 0, 2)] if tier == 'quick' else [(None, 0, 3), (3, 0, 2), (0, 0, 2), (None, 2, 2), (3, 2, 2)]
     for code, chain, bound in configs:
         if True:
             ex, log, res = execute(code, chain, [])
